@@ -2386,6 +2386,12 @@ evhttp_get_body(struct evhttp_connection *evcon, struct evhttp_request *req)
 	if (xfer_enc != NULL && evutil_ascii_strcasecmp(xfer_enc, "chunked") == 0) {
 		req->chunked = 1;
 		req->ntoread = -1;
+	} else if (xfer_enc != NULL && req->kind == EVHTTP_REQUEST) {
+		/* A request whose transfer coding we cannot undo has no
+		 * length we could trust (RFC 9112, 6.3): falling back to
+		 * Content-Length would be a guess about where it ends. */
+		evhttp_connection_fail_(evcon, EVREQ_HTTP_INVALID_HEADER);
+		return;
 	} else {
 		if (evhttp_get_body_length(req) == -1) {
 			evhttp_connection_fail_(evcon, EVREQ_HTTP_INVALID_HEADER);
